@@ -11,6 +11,9 @@ Oracles on the implementation's own behaviour (debug and release build):
   O2  hence the same segments render the same under every delimiter family (also compared directly);
   O3  no panic, whatever the configuration accepted by build() and whatever the source;
   O4  a line statement renders as the block tag occupying that line (compared directly with trim+lstrip on).
+  O5  history independence: 2..4 configurations (the same delimiter strings in permuted roles, delimiter sets whose
+      concatenations collide, prefixes of each other, with/without/swapped line prefixes) are built and used in ONE fresh
+      process, interleaved in several orders; every use must equal the model of that configuration alone (mode 2).
 """
 import os, sys, collections, itertools, json
 from concurrent.futures import ThreadPoolExecutor
@@ -136,6 +139,9 @@ def valid(d, segs):
             own = d[2] if (s[0] != "raw" and s[1] == 0) else d[0] if (s[0] == "raw" or s[1] == 1) else d[4]
             for p, pid in pats:
                 if len(p) > len(own) and full.startswith(p, pos): return False
+                # another start delimiter ending strictly inside this one would be reported first (Domain.infix_free)
+                for i in range(1, len(own) - len(p)):
+                    if own.startswith(p, i) and not (pid == 3 and not line_start_simple(full, pos + i)): return False
             if s[0] == "gtag":
                 # the interior must not contain the end delimiter of its own tag
                 if [d[3], d[1], d[5]][s[1]] in s[4]: return False
@@ -157,6 +163,8 @@ def valid(d, segs):
             if k == 0 and not line_start_simple(full, pos): return False
             for p, pid in pats:
                 if len(p) > len(own) and full.startswith(p, pos): return False
+                for i in range(1, len(own) - len(p)):
+                    if own.startswith(p, i) and not (pid == 3 and not line_start_simple(full, pos + i)): return False
             if nl == 0 and idx != len(segs) - 1: return False
             if nl == 3 and full[pos + len(here):pos + len(here) + 1] == "\n": return False
             # the comment text must not contain a newline, the statement must end at this line end
@@ -283,6 +291,133 @@ def rand_seq(rng, fam, nmin, nmax, rich=True):
 
 
 # ------------------------------------------------------------------------------------------------
+# HISTORY family: several configurations built and used in ONE process.  What a configuration means must be a
+# function of (configuration, source) alone: every use is compared with the model (and the specification) run on
+# that configuration alone.  Each history case runs in a fresh process, so that a case is its own replay.
+# ------------------------------------------------------------------------------------------------
+def mkcfg(block, var, com, ls="", lc=""):
+    return [block[0], block[1], var[0], var[1], com[0], com[1], ls, lc]
+
+
+def role_perms(a, b, c, ls="", lc=""):
+    return [mkcfg(x, y, z, ls, lc) for x, y, z in itertools.permutations([a, b, c])]
+
+
+DEF3 = (("{%", "%}"), ("{{", "}}"), ("{#", "#}"))
+ERB3 = (("<%", "%>"), ("<%=", "=>"), ("<%#", "#>"))
+HIST_POOLS = collections.OrderedDict([
+    # the same delimiter strings in permuted roles; nested prefixes: the start delimiters of two permutations
+    # concatenate to the same string
+    ("angle-roles", role_perms(("<<", ">>"), ("<<<", ">>>"), ("<<#", "#>>"))),
+    ("brace-roles", role_perms(("{", "}"), ("{{", "}}"), ("{#", "#}"))),
+    ("erb-roles", role_perms(*ERB3)),
+    ("square-roles", role_perms(("[%", "%]"), ("[[", "]]"), ("[#", "#]"))),
+    # different delimiter sets whose concatenations collide: (a, bc) versus (ab, c)
+    ("collide", [mkcfg(("=<", ">="), ("<%", "%>"), ("<#", "#>")), mkcfg(("<", ">"), ("<%=", "%>"), ("<#", "#>")),
+                 mkcfg(("@@!", ";;"), ("@", ";"), ("@#", "#;")), mkcfg(("@!", ";;"), ("@@", ";"), ("@#", "#;")),
+                 mkcfg(("<%", "%>"), ("<", ">"), ("=<#", "#>")), mkcfg(("<%", "%>"), ("<%=", "=>"), ("<#", "#>"))]),
+    # the same set with / without line prefixes, prefixes swapped, one prefix = the concatenation of two others
+    ("line-default", [mkcfg(*DEF3, ls=a, lc=b) for a, b in [("#", "##"), ("##", "#"), ("#", ""), ("", "#"), ("", "##"), ("##", ""),
+                                                            ("###", ""), ("", "###"), ("", "")]]),
+    ("line-erb", [mkcfg(*ERB3, ls=a, lc=b) for a, b in [("%", "%%"), ("%%", "%"), ("%", ""), ("", "%%"), ("%%%", ""), ("", "")]]),
+    # one configuration's delimiters are prefixes of another's
+    ("prefixes", [mkcfg(("<%", "%>"), ("<%=", "=>"), ("<%#", "#>")), mkcfg(("<%%", "%>"), ("<%=", "=>"), ("<%#", "#>")),
+                  mkcfg(("<", ">"), ("<%", "%>"), ("<%#", "#>")), mkcfg(("<%", "%>"), ("<%=", "=>"), ("<", ">")),
+                  mkcfg(("<%=", "%>"), ("<%", "=>"), ("<%#%", "#>"))]),
+])
+
+
+def history_ops(rng, k):
+    w = rng.below(6)
+    if w == 0: return [x for i in range(k) for x in ((0, i), (1, i))]                      # build, use, build, use
+    if w == 1: return [(0, i) for i in range(k)] + [(1, i) for i in range(k)]              # build all, then use in order
+    if w == 2: return [(0, i) for i in range(k)] + [(1, i) for i in reversed(range(k))]    # ... use in reverse
+    if w == 3:                                                                             # interleaved re-use
+        ops = []
+        for i in range(k):
+            ops.append((0, i))
+            for j in range(max(0, i - 1), i + 1): ops.append((1, j))
+        return ops + [(1, 0)]
+    if w == 4: return [(1, i) for i in range(k)] + [(1, i) for i in range(k)]              # built on first use, used twice
+    return [(0, i) for i in range(k)] + [(0, 0), (1, 0)] + [(1, i) for i in range(1, k)] + [(0, k - 1), (1, 0)]   # rebuilds
+
+
+def history_case(rng):
+    pool_name = rng.choice(list(HIST_POOLS))
+    pool = HIST_POOLS[pool_name]
+    k = 2 + rng.below(3)
+    cfgs = []
+    for _ in range(k):
+        cfgs.append(rng.choice(pool))
+    if all(c == cfgs[0] for c in cfgs):
+        cfgs[1] = rng.choice([c for c in pool if c != cfgs[0]])
+    ops = history_ops(rng, k)
+    bits = rng.below(8)
+    lines_ok = all(c[6] and c[7] for c in cfgs)
+    probe = None
+    if rng.below(4) != 0:
+        texts = T_CORE + ["x y", "a\n", "\nz"]
+        for _ in range(30):
+            segs = []
+            for i in range(1 + rng.below(5)):
+                w = rng.below(10)
+                prev = segs[-1][0] if segs else None
+                if w < 4 and prev != "text": segs.append(("text", rng.choice(texts)))
+                elif w < 8 or not lines_ok: segs.append(rng.choice(TAGS))
+                elif w < 9: segs.append(rng.choice([l for l in LINES if l[3] != 0]))
+                else: segs.append(("raw", 0, rng.below(3), rng.choice(RAW_CORE), rng.below(3), 0))
+            segs = [x for x in segs if x != ("text", "")]
+            if segs and all(valid(c, segs) for c in cfgs):
+                probe = ("segs", segs)
+                break
+    if probe is None:
+        mat = sorted({x for c in cfgs for x in c if x})
+        pool_s = mat + mat + ["-", "+", " ", " ", "\n", "\n", "\r\n", "a", "'V'", " set q = 1 ", " if false", " endif", "hidden", "x", "1", " c "]
+        src = "".join(rng.choice(pool_s) for _ in range(1 + rng.below(10)))
+        probe = ("src", src)
+    return {"pool": pool_name, "bits": bits, "configs": cfgs, "ops": [list(o) for o in ops], "probe": [probe[0], probe[1]]}
+
+
+def enc_history(h):
+    out = [2, h["bits"], len(h["configs"])]
+    for c in h["configs"]:
+        for x in c: out += S(x)
+    out.append(len(h["ops"]))
+    for op, i in h["ops"]: out += [op, i]
+    if h["probe"][0] == "segs":
+        segs = [tuple(x) for x in h["probe"][1]]
+        out += [0, len(segs)]
+        for sg in segs: out += enc_seg(sg)
+    else:
+        out += [1] + S(h["probe"][1])
+    return out
+
+
+def history_single(h, i):
+    """the same probe under configuration i alone, as an ordinary mode 0 / mode 1 case"""
+    d = h["configs"][i]
+    if h["probe"][0] == "segs": return enc(h["bits"], d, [tuple(x) for x in h["probe"][1]])
+    return enc_src(h["bits"], d, h["probe"][1])
+
+
+def split_uses(o):
+    if not o or o[0] != 4: return None
+    n = o[1]; i = 2; uses = []
+    for _ in range(n):
+        m = o[i]; uses.append(o[i + 1:i + 1 + m]); i += 1 + m
+    return uses
+
+
+def run_fresh(cases, release=False, workers=16):
+    """every case in a process of its own"""
+    def one(c):
+        r = run_lines([bin_path("c10", release)], [c])
+        return r[0] if r else ["CRASH", -1, ""]
+    with ThreadPoolExecutor(max_workers=workers) as ex:
+        return list(ex.map(one, cases))
+
+
+# ------------------------------------------------------------------------------------------------
 # running one batch through implementation (debug, release), model, specification, theorem domain
 # ------------------------------------------------------------------------------------------------
 def run_batch(cases):
@@ -361,7 +496,14 @@ def main():
 
     # ---------------- case generation (streamed) ----------------
     # meta = (family name | explicit delimiter list, bits, segs) for mode 0; ("src", d, bits, src) for mode 1
+    replay_history = None
+    if chk.replay:
+        rp0 = json.load(open(chk.replay))["replay"]
+        if "history" in rp0: replay_history = rp0["history"]
+
     def gen_metas():
+        if replay_history is not None:
+            return
         if chk.replay:
             rp = json.load(open(chk.replay))["replay"]
             if "segments" in rp.get("describe", {}):
@@ -598,6 +740,75 @@ def main():
                                 "implementation": [r4[2 * k], r4[2 * k + 1]], "what": "a line statement renders differently from the block tag occupying that line"}))
     hist["line-statement-vs-tag-pairs"] = len(o4_meta)
 
+
+    # HISTORY: several configurations built and used in one process; every use = the model of that configuration alone
+    if replay_history is not None: hcases = [replay_history]
+    elif chk.replay: hcases = []
+    else: hcases = [history_case(rng) for _ in range(40000 if chk.thorough else 2500)]
+    h_uses = 0
+    if hcases:
+        henc = [enc_history(h) for h in hcases]
+        hres = {False: run_fresh(henc, False), True: run_fresh(henc, True)}
+        evaluations += 2 * len(henc)
+        singles, sidx = [], {}
+        for hi, h in enumerate(hcases):
+            for i in range(len(h["configs"])):
+                sidx[(hi, i)] = len(singles); singles.append(history_single(h, i))
+        smod = run_model("C10", "c10", singles)
+        sspec = run_model("C10", "c10-spec", singles)
+        sdom = run_model("C10", "c10-domain", singles)
+        need_alone = {}
+        for hi, h in enumerate(hcases):
+            hist["class=history"] += 1
+            hist["history-pool=" + h["pool"]] += 1
+            use_cfg = [i for op, i in h["ops"] if op == 1]
+            for rel in (False, True):
+                uses = split_uses(hres[rel][hi])
+                prof = "release" if rel else "debug"
+                def bad(what, j=None, extra=None):
+                    key = "history:" + h["pool"]
+                    det = {"history": h, "case": henc[hi], "profile": prof, "implementation": hres[rel][hi], "what": what,
+                           "how": "./check C10 --replay <this file>  (the whole sequence runs in one fresh process)"}
+                    if j is not None:
+                        i = use_cfg[j]
+                        det.update({"use": j, "configuration": h["configs"][i], "source": unparse(h["configs"][i], [tuple(x) for x in h["probe"][1]]) if h["probe"][0] == "segs" else h["probe"][1],
+                                    "this_use": uses[j], "configuration_alone_model": smod[sidx[(hi, i)]]})
+                    if extra: det.update(extra)
+                    old = viol.get(key)
+                    if old is None or len(json.dumps(old[1]["history"])) > len(json.dumps(h)): viol[key] = (None, det)
+                if hres[rel][hi] and hres[rel][hi][0] in ("CRASH", 2):
+                    bad("the engine panicked"); continue
+                if uses is None or len(uses) != len(use_cfg):
+                    bad("history harness output malformed"); continue
+                for j, i in enumerate(use_cfg):
+                    h_uses += 1
+                    mod = smod[sidx[(hi, i)]]; out = uses[j]
+                    if mod == [7]:
+                        need_alone.setdefault((hi, i), []).append((rel, j, out)); continue
+                    if out != mod:
+                        bad("a configuration behaves differently after other configurations were built in the same process", j)
+                        continue
+                    if h["probe"][0] == "segs" and sdom[sidx[(hi, i)]][:1] == [1]:     # inside the domain of texts_verbatim
+                        er, ei = split_spec(sspec[sidx[(hi, i)]]); si = split_impl(out)
+                        if si is None or si[0] != er or si[1] != ei:
+                            bad("rendered output / token view differs from the whitespace rules (history case)", j)
+        if need_alone:
+            # tag interiors outside the model: compare with the implementation run on that configuration alone
+            keys = sorted(need_alone)
+            alone = [dict(hcases[hi], configs=[hcases[hi]["configs"][i]], ops=[[0, 0], [1, 0]]) for hi, i in keys]
+            aenc = [enc_history(a) for a in alone]
+            ares = {False: run_fresh(aenc, False), True: run_fresh(aenc, True)}
+            for k, (hi, i) in enumerate(keys):
+                for rel, j, out in need_alone[(hi, i)]:
+                    au = split_uses(ares[rel][k])
+                    if au is None or len(au) != 1 or au[0] != out:
+                        h = hcases[hi]
+                        viol.setdefault("history:" + h["pool"], (None, {"history": h, "case": henc[hi], "profile": "release" if rel else "debug", "use": j,
+                                        "configuration": h["configs"][i], "this_use": out, "configuration_alone_implementation": au,
+                                        "what": "a configuration behaves differently after other configurations were built in the same process"}))
+            hist["history-uses-compared-with-implementation-alone"] = sum(len(v) for v in need_alone.values())
+    hist["history-uses-compared"] = h_uses
+
     # kernel cross-check of the extraction
     kern_ok, kern_n = True, 0
     if model_sample:
@@ -616,6 +827,8 @@ def main():
     chk.cov["cases"] = ncases
     chk.cov["in_theorem_domain"] = in_domain
     chk.cov["family_pairs_compared"] = fam_pairs
+    chk.cov["history_sequences"] = len(hcases)
+    chk.cov["history_uses_compared"] = h_uses
     chk.cov["distribution"] = dict(hist)
     chk.cov["samples"] = samples + src_samples
     chk.cov["impl_vs_model_disagreements"] = len(corr_bad)
